@@ -11,6 +11,7 @@ Tie: hand model coq/C08/Model.v + correspondence inside coqc on generated spaces
 Direct oracle: total volume = sum of pixel volumes for every domain kind (GL/HP through ducc0),
 k-length table vs unique lengths as sets, bins non-empty / volumes / means by brute force, identity
 iff equal descriptions (also through a fresh subprocess), codomain involution and n*d*d' = 1."""
+import copy
 import json
 import os
 import pickle
@@ -25,8 +26,15 @@ HEADER = ("From Coq Require Import List Arith Bool ZArith QArith Qcanon.\nImport
           "Require Import NV.C08.Model NV.C08.Corr.\nOpen Scope Q_scope.\n")
 
 
+class NonFinite(Exception):
+    """inf/nan returned by the implementation: no exact rational image, the comparison is `false`."""
+
+
 def cq(x):
-    return C.cq(float(x))
+    x = float(x)
+    if not np.isfinite(x):
+        raise NonFinite()
+    return C.cq(x)
 
 
 def cqs(xs):
@@ -156,6 +164,9 @@ def gen_cases(ctx):
     # repeated queries on ONE domain object, interleaved with useful_binbounds / PowerSpace construction
     for i in range(16 if ctx.quick else 100):
         cases.append(gen_qhist(rng, i))
+    # single domains through pickle / deepcopy (also twice, also via the codomain)
+    for i in range(30 if ctx.quick else 200):
+        cases.append(gen_dround(rng, i))
     # DOF spaces, cached power-index arrays
     for i in range(4 if ctx.quick else 20):
         cases.append({"kind": "dof", "weights": [float(x) for x in rng.choice(DYAD + ODD, size=int(rng.integers(1, 7)))]})
@@ -168,6 +179,28 @@ def gen_cases(ctx):
             keys.append([hi, [None, None, m[:1], m][int(rng.integers(0, 4))]])
         cases.append({"kind": "pcache", "keys": keys})
     return cases
+
+
+def gen_dround(rng, i):
+    r = i % 5
+    if r < 3:          # RG grids, mostly sizes / distances whose public distances do not reproduce the internal ones
+        nd = int(rng.choice([1, 1, 2, 3]))
+        pool = [3, 5, 6, 7, 9, 10, 11, 12, 13, 49, 98, 103, 107] if nd == 1 else ([3, 5, 7, 10, 13] if nd == 2 else [3, 5, 7])
+        sh = [int(x) for x in rng.choice(pool, size=nd)]
+        q = int(rng.integers(0, 3))
+        dist = None if q == 0 else (float(rng.choice(DYAD + ODD)) if q == 1 else [float(x) for x in rng.choice(DYAD + ODD, size=nd)])
+        spec = ["rg", sh, dist, bool(r != 2 or rng.integers(0, 2))]
+    elif r == 3:
+        lmax = int(rng.integers(0, 6))
+        spec = [["lm", lmax, int(rng.integers(0, lmax + 1))], ["gl", int(rng.integers(1, 5)), None], ["hp", int(rng.choice([1, 2, 4]))],
+                ["unstructured", [int(rng.integers(1, 4)), int(rng.integers(1, 4))]],
+                ["dof", [float(x) for x in rng.choice(DYAD + ODD, size=int(rng.integers(1, 4)))]]][int(rng.integers(0, 5))]
+    else:              # power space over a harmonic grid that does not round-trip through its public distances
+        n = int(rng.choice([7, 10, 13, 49]))
+        h = ["rg", [n], float(rng.choice(ODD)), True]
+        u = ref_unique(h)
+        spec = ["power", h, None if rng.integers(0, 2) else [float(0.5 * (u[0] + u[1])), float(0.5 * (u[1] + u[2]))]]
+    return {"kind": "dround", "spec": spec, "how": str(rng.choice(["pickle", "deepcopy", "pickle2"]))}
 
 
 # harmonic partners for the power-index cache cases; 0/1 and 3/4 are two spellings of one description
@@ -262,6 +295,10 @@ SPELLINGS = [
     ["unstructured", 3], ["unstructured", [3]], ["unstructured", [1, 3]],
     ["power", ["rg", 4, None, True], None], ["power", ["rg", [4], 1.0, True], None], ["power", ["rg", 4, None, True], [0.3]],
     ["dof", [1.0, 2.0]], ["dof", [1.0, 2.0]], ["dof", [2.0, 1.0]],
+    # harmonic grids whose public distances are NOT bit-identical to what the constructor would
+    # recompute from them (1/(n*(1/(n*d))) != d): any re-creation must go through the internal state
+    ["rg", 49, None, True], ["rg", [7], 0.3, True], ["rg", [5, 7], [0.3, 1.7], True], ["rg", [10, 13], 0.3, True],
+    ["rg", 49, None, False], ["rg", [7], [0.3], True],
 ]
 
 
@@ -280,13 +317,15 @@ def gen_history(rng, which):
                 items = []
                 for nm in names:
                     k = int(rng.choice([0, 1, 1, 2]))
-                    sp = [int(x) for x in rng.integers(0, 8, size=k)]
+                    sp = [int(x) for x in rng.integers(0, len(SPELLINGS), size=k)]
                     items.append([nm, sp, str(rng.choice(["tuple", "domaintuple", "single"] if k == 1 else ["tuple", "domaintuple"]))])
                 ops.append(["make", items])
-        elif r < 8:
+        elif r < 7:
             ops.append(["same", int(rng.integers(0, t))])
-        else:
+        elif r < 9:
             ops.append(["pickle", int(rng.integers(0, t))])
+        else:
+            ops.append(["deepcopy", int(rng.integers(0, t))])
     return {"kind": "hist_" + which, "ops": ops}
 
 
@@ -333,12 +372,20 @@ def run_history(case):
             objs.append(cls.make(objs[op[1]]))
             descs.append(descs[op[1]])
         else:
-            objs.append(pickle.loads(pickle.dumps(objs[op[1]])))
+            src = objs[op[1]]
+            objs.append(pickle.loads(pickle.dumps(src)) if op[0] == "pickle" else copy.deepcopy(src))
             descs.append(descs[op[1]])
     classes = []
     for i, o in enumerate(objs):
         classes.append(next(j for j in range(i + 1) if objs[j] is o))
-    return {"classes": classes, "descs": descs, "objs": objs}
+
+    def observed(o):       # the description the result actually has
+        if which == "dt":
+            return tuple(desc_key(x) for x in o)
+        return tuple(sorted((k, tuple(desc_key(x) for x in v)) for k, v in o.items()))
+    changed = [i for i, (o, d) in enumerate(zip(objs, descs))
+               if observed(o) != (d if which == "dt" else tuple(sorted(d)))]
+    return {"classes": classes, "descs": descs, "objs": objs, "changed": changed}
 
 
 def qh_answer(sp, op, ift):
@@ -380,6 +427,47 @@ def run_qhist(case):
     return out
 
 
+def roundtrip(o, how):
+    if how == "deepcopy":
+        return copy.deepcopy(o)
+    o = pickle.loads(pickle.dumps(o))
+    return pickle.loads(pickle.dumps(o)) if how == "pickle2" else o
+
+
+def geom(sp):
+    """Everything observable about a domain's geometry, bit for bit."""
+    g = {"shape": [int(x) for x in sp.shape], "size": int(sp.size)}
+    for a in ("harmonic", "scalar_dvol", "total_volume", "distances", "dvol", "binbounds", "k_lengths", "pindex"):
+        try:
+            v = getattr(sp, a)
+        except (AttributeError, NotImplementedError):
+            continue
+        g[a] = None if v is None else (bool(v) if isinstance(v, bool) else [float(x).hex() for x in np.asarray(v, dtype=np.float64).ravel()])
+    if getattr(sp, "harmonic", False):
+        g["ks"] = [float(x).hex() for x in sp.get_k_length_array().asnumpy().ravel()]
+        g["uniq"] = [float(x).hex() for x in sp.get_unique_k_lengths()]
+    return g
+
+
+def run_dround(case):
+    ift = quiet()
+    s = mk_space(case["spec"])
+    t = roundtrip(s, case["how"])
+    out = {"eq": bool(s == t and t == s and not (s != t)), "hash": hash(s) == hash(t), "desc": desc_key(s) == desc_key(t),
+           "geom": geom(s) == geom(t), "type": type(s) is type(t)}
+    a, b = ift.DomainTuple.make((s,)), ift.DomainTuple.make((t,))
+    c = roundtrip(a, case["how"])
+    out["classes"] = [0, 0 if b is a else 1, 0 if c is a else (1 if c is b else 2)]
+    out["codomain"] = True
+    if case["spec"][0] == "rg":
+        co = roundtrip(s.get_default_codomain(), case["how"])
+        back = co.get_default_codomain()
+        out["codomain"] = bool(back == s and s == back and hash(back) == hash(s) and geom(back) == geom(s))
+        out["t_geom"] = dict(distances=fl(t.distances), dvol=float(t.scalar_dvol), size=int(t.size), total=float(t.total_volume),
+                             extents=fl(t.extents), codist=fl(co.distances), codvol=float(co.scalar_dvol))
+    return out
+
+
 def run_case(case):
     ift = quiet()
     k = case["kind"]
@@ -407,13 +495,19 @@ def run_case(case):
             h = mk_space(case["h"])
             obs.update(ks=fl(h.get_k_length_array().asnumpy()), uniq=fl(h.get_unique_k_lengths()), pdvol=float(h.scalar_dvol),
                        hsize=int(h.size), htotal=float(h.total_volume))
-            try:
-                p = ift.PowerSpace(h, None if case["binning"] is None else tuple(case["binning"]))
-                obs.update(pindex=[int(x) for x in p.pindex.ravel()], klen=fl(p.k_lengths), dvol=fl(p.dvol), psize=int(p.size),
-                           ptotal=float(p.total_volume), binbounds=None if p.binbounds is None else fl(p.binbounds))
-            except ValueError as e:
-                obs["error"] = "ValueError"
-                obs["message"] = str(e)
+            def attempt(hh):
+                try:
+                    p = ift.PowerSpace(hh, None if case["binning"] is None else tuple(case["binning"]))
+                    return dict(error=None, pindex=[int(x) for x in p.pindex.ravel()], klen=fl(p.k_lengths), dvol=fl(p.dvol),
+                                psize=int(p.size), ptotal=float(p.total_volume),
+                                binbounds=None if p.binbounds is None else fl(p.binbounds))
+                except ValueError as e:
+                    return dict(error="ValueError", message=str(e))
+            obs.update(attempt(h))
+            # the same request again (retry after a possible failure), then through a fresh equal partner
+            obs["retries"] = [attempt(h), attempt(mk_space(case["h"]))]
+        elif k == "dround":
+            obs.update(run_dround(case))
         elif k == "qhist":
             obs.update(run_qhist(case))
         elif k == "dof":
@@ -434,6 +528,7 @@ def run_case(case):
         elif k.startswith("hist_"):
             r = run_history(case)
             obs["classes"] = r["classes"]
+            obs["changed"] = r["changed"]
             dcode, codes = {}, []
             for d in r["descs"]:
                 codes.append(d)
@@ -481,24 +576,37 @@ def hist_terms(case, obs):
                 ops.append("Make _ %s" % C.clist(items))
         elif op[0] == "same":
             ops.append("Same _ %d%%nat" % op[1])
-        else:
+        else:               # pickle and deepcopy both go through __reduce__ -> make(description)
             ops.append("Pickle _ %d%%nat" % op[1])
+    if obs.get("changed"):
+        return "false"      # a result does not have the description the model assigns to it
     fn = "dt_classes" if which == "dt" else "md_classes"
     return "nat_list_eqb (%s %s) %s" % (fn, C.clist(ops), cnats(obs["classes"]))
 
 
 def coq_check(case, obs):
+    try:
+        return coq_check_(case, obs)
+    except NonFinite:
+        return "false"
+
+
+def coq_check_(case, obs):
     k = case["kind"]
     if k == "power":
         if "ks" not in obs:
             return "false"
-        o = "None" if obs["error"] == "ValueError" else (
-            None if obs["error"] else "(Some (%s, (%s, %s)))" % (cnats(obs["pindex"]), cqs(obs["klen"]), cqs(obs["dvol"])))
-        if o is None:
-            return "false"
-        if case["binning"] is None:
-            return "ps_natural_ok %s %s %s %s" % (cqs(obs["uniq"]), cqs(obs["ks"]), cq(obs["pdvol"]), o)
-        return "ps_ok %s %s %s %s" % (cqs(case["binning"]), cqs(obs["ks"]), cq(obs["pdvol"]), o)
+        parts = []
+        for a in [obs] + obs.get("retries", []):       # every attempt against the pure model of the arguments
+            o = "None" if a["error"] == "ValueError" else (
+                None if a["error"] else "(Some (%s, (%s, %s)))" % (cnats(a["pindex"]), cqs(a["klen"]), cqs(a["dvol"])))
+            if o is None:
+                return "false"
+            if case["binning"] is None:
+                parts.append("(ps_natural_ok %s %s %s %s)" % (cqs(obs["uniq"]), cqs(obs["ks"]), cq(obs["pdvol"]), o))
+            else:
+                parts.append("(ps_ok %s %s %s %s)" % (cqs(case["binning"]), cqs(obs["ks"]), cq(obs["pdvol"]), o))
+        return " && ".join(parts)
     if obs["error"] is not None:
         return "false"
     if k == "lm":
@@ -532,6 +640,22 @@ def coq_check(case, obs):
         return " && ".join("(nat_list_eqb (pc_classes %s) %s)" % (cnats(keys), cnats(obs[c])) for c in ("classes", "classes_k", "classes_v"))
     if k == "qhist":
         return qhist_terms(case, obs)
+    if k == "dround":
+        # a round trip is `Pickle` in the hash-consing model (same description, hence same canonical tuple),
+        # and the copy's geometry is the pure function of the ORIGINAL constructor arguments
+        if not (obs["eq"] and obs["hash"] and obs["desc"] and obs["geom"] and obs["type"] and obs["codomain"]):
+            return "false"
+        t = "nat_list_eqb (dt_classes [Make _ [0%%nat]; Make _ [0%%nat]; Pickle _ 0%%nat]) %s" % cnats(obs["classes"])
+        if case["spec"][0] == "rg":
+            sp = case["spec"]
+            sh = sp[1] if isinstance(sp[1], list) else [sp[1]]
+            d = sp[2]
+            dist = "None" if d is None else "(Some %s)" % cqs(d if isinstance(d, list) else [d] * len(sh))
+            g = obs["t_geom"]
+            t += " && rg_geom_ok %s %s %s %s %s %d%%nat %s %s %s %s" % (
+                cnats(sh), dist, C.cbool(sp[3]), cqs(g["distances"]), cq(g["dvol"]), g["size"], cq(g["total"]),
+                cqs(g["extents"]), cqs(g["codist"]), cq(g["codvol"]))
+        return t
     return "false"
 
 
@@ -679,6 +803,9 @@ def rg_failure(case, obs):
 
 def history_failure(case, obs):
     cl, ds = obs["classes"], obs["descs"]
+    if obs.get("changed"):
+        i = obs["changed"][0]
+        return "result %d (%s): the object does not have the description it was made / copied from" % (i, case["ops"][i][0])
 
     def canon(d):
         return tuple(sorted(d)) if case["kind"] == "hist_md" else d
@@ -741,6 +868,18 @@ def direct_failure_(case, obs):
     k = case["kind"]
     if k == "qhist":
         return qhist_failure(case, obs)
+    if k == "dround":
+        if obs["error"]:
+            return "%s round trip of a domain raised %s (%s)" % (case["how"], obs["error"], obs.get("message"))
+        what = {"eq": "compares unequal to the original", "hash": "hashes differently", "desc": "has a different description",
+                "geom": "has different geometry (distances / volumes / k-lengths, bit for bit)", "type": "has another class",
+                "codomain": "breaks codomain(codomain(s)) == s"}
+        for key, msg in what.items():
+            if not obs[key]:
+                return "a domain that went through %s %s" % (case["how"], msg)
+        if obs["classes"] != [0, 0, 0]:
+            return "DomainTuple of a %s-copied domain is not the identical object (classes %r)" % (case["how"], obs["classes"])
+        return None
     if k == "dof":
         if obs["error"]:
             return "DOFSpace raised %s" % obs["error"]
@@ -761,6 +900,10 @@ def direct_failure_(case, obs):
     if k == "power":
         if obs["error"] not in (None, "ValueError"):
             return "PowerSpace raised %s" % obs["error"]
+        for i, a in enumerate(obs.get("retries", [])):
+            if {x: y for x, y in a.items() if x != "message"} != {x: y for x, y in obs.items() if x in a and x != "message"}:
+                return "PowerSpace: asking again for the same (partner, binbounds) gives a different outcome (attempt %d: %s, first: %s)" % (
+                    i + 2, a["error"] or "accepted", obs["error"] or "accepted")
         h = mk_space(case["h"])
         return klength_failure(h) or volume_failure(h) or power_failure(h, case["binning"])
     if obs["error"] is not None:
@@ -797,7 +940,7 @@ def subprocess_identity_failure(ctx):
     """Pickles written here, loaded in a fresh interpreter: identical iff equal description."""
     ift = quiet()
     objs, descs = [], []
-    for sp in ([0], [1], [3], [4, 8], [4, 9], [17], [18], [19], []):
+    for sp in ([0], [1], [3], [4, 8], [4, 9], [17], [18], [19], [], [23], [24, 25], [28, 25], [26]):
         doms = tuple(mk_space(SPELLINGS[i]) for i in sp)
         objs.append(ift.DomainTuple.make(doms))
         descs.append(("dt",) + tuple(desc_key(x) for x in doms))
@@ -879,13 +1022,13 @@ class C08(C.Check):
             if (k == "lm" and c["lmax"] >= 1) or (k in ("rgtab", "rgtab_q") and int(np.prod(c["shape"])) >= 3) or \
                (k == "rggeom" and int(np.prod(c["shape"])) >= 2) or (k == "power" and o.get("hsize", 0) >= 3) or \
                (k == "qhist" and sum(1 for op in c["ops"] if op[0] in ("useful", "power_useful")) >= 1 and len(c["ops"]) >= 4) or \
-               (k == "dof" and len(c["weights"]) >= 2) or \
+               (k == "dof" and len(c["weights"]) >= 2) or (k == "dround") or \
                (k == "pcache" and len(set(o.get("classes", []))) >= 2 and len(set(o.get("classes", []))) < len(o.get("classes", []))) or \
                (k.startswith("hist_") and len(set(o.get("classes", []))) >= 2 and len(set(o.get("classes", []))) < len(o.get("classes", []))):
                 nontrivial.add(json.dumps(c, sort_keys=True))
         res.coverage.update({
             "evaluations": len(self.cases), "distinct_nontrivial": len(nontrivial),
-            "rule": "LMSpace all lmax<=%d,mmax<=lmax; harmonic RGSpace tables 1-D sizes 1-9, 2-D up to 6x6, 3-D up to 4^3 (equal and unequal distances, dyadic and non-dyadic); RG geometry 1-3 axes sizes 1-9 with None/scalar/tuple distances, both kinds; PowerSpace over RG 1-D/2-D and LM partners with natural, arbitrary ascending, at-k-value, linear and logarithmic bounds; DomainTuple/MultiDomain histories of make / make(obj) / pickle over a pool of %d domain spellings; histories of repeated get_unique_k_lengths / get_k_length_array / useful_binbounds / PowerSpace queries on ONE domain object (anisotropic and isotropic non-square RG up to 6x10, 1-D, LM) compared with a fresh object and the model; non-square equal-distance grids up to 6x10 / 4x6x9 in both axis orders; DOFSpace; identity classes of the cached power-index arrays; non-trivial = more than a couple of pixels, resp. a history with both identical and distinct results; distinct by full case" % (5 if ctx.quick else 8, len(SPELLINGS)),
+            "rule": "LMSpace all lmax<=%d,mmax<=lmax; harmonic RGSpace tables 1-D sizes 1-9, 2-D up to 6x6, 3-D up to 4^3 (equal and unequal distances, dyadic and non-dyadic); RG geometry 1-3 axes sizes 1-9 with None/scalar/tuple distances, both kinds; PowerSpace over RG 1-D/2-D and LM partners with natural, arbitrary ascending, at-k-value, linear and logarithmic bounds; DomainTuple/MultiDomain histories of make / make(obj) / pickle over a pool of %d domain spellings; histories of repeated get_unique_k_lengths / get_k_length_array / useful_binbounds / PowerSpace queries on ONE domain object (anisotropic and isotropic non-square RG up to 6x10, 1-D, LM) compared with a fresh object and the model; non-square equal-distance grids up to 6x10 / 4x6x9 in both axis orders; DOFSpace; identity classes of the cached power-index arrays; single domains of every class through pickle / deepcopy / double pickle (RG sizes incl. 49, 98, 103, 107 and non-dyadic distances, both kinds, also via the codomain): equality, hash, description, bit-exact geometry, canonical DomainTuple; every PowerSpace request repeated (retry after rejection, fresh equal partner); non-trivial = more than a couple of pixels, resp. a history with both identical and distinct results; distinct by full case" % (5 if ctx.quick else 8, len(SPELLINGS)),
             "samples": [{"case": c} for c in self.cases[40:43]],
             "input_distribution": {"by_kind": kinds, "power_rejected": sum(1 for c, o in zip(self.cases, self.obs) if c["kind"] == "power" and o["error"] == "ValueError")},
             "disagreements": len(bad), "exhaustive": False,
